@@ -17,6 +17,15 @@ CHECKS = {
     ),
 }
 
+CHECKS["C15"] = dict(
+    technique="differential testing against Python's eval over a bounded-exhaustive expression space plus Hypothesis-random deeper expressions; execution-oracle differential on programs whose conditions are those expressions",
+    text="literal_value(e) is compared with eval(e) (type, value, raising, observed effects through recording stand-ins) for every expression "
+         "of depth<=1, sampled/complete depth 2 and random depth<=4; the consumers that fold conditions are run on programs built around the "
+         "same expressions and judged by stdout/exception class.",
+    note="eval() in the harness is the reference; frame/process dependent builtins (globals, id, hash, ...) and identity between non-singleton literals are outside the domain; one design-level finding (F-C15-01) is excluded by construction and counted.",
+    design="5/C15",
+)
+
 NOT_YET = {}
 
 
